@@ -84,6 +84,10 @@ Pre(e, line, args, mode) ==
     [] e = "prompt" -> line          \* for lines without a newline and without !! (the generators' fragment)
     [] OTHER -> IF mode = "splice" THEN Splice(line, 1, "", args) ELSE ReRender(line)
 
-Meaning(line) == Read(line).segs
+\* the reading of a line; "escaped inside double quotes" (dqe) counts as "inside double quotes" here
+NormWord(w)  == [i \in 1..Len(w) |-> <<w[i][1], IF w[i][2] = "dqe" THEN "dq" ELSE w[i][2]>>]
+NormStage(t) == [t EXCEPT !.words = [i \in 1..Len(t.words) |-> NormWord(t.words[i])]]
+NormSeg(g)   == [g EXCEPT !.stages = [i \in 1..Len(g.stages) |-> NormStage(g.stages[i])]]
+Meaning(line) == LET sg == Read(line).segs IN [i \in 1..Len(sg) |-> NormSeg(sg[i])]
 EntryEquiv(line, args, mode) == \A e \in Entries : Meaning(Pre(e, line, args, mode)) = Meaning(line)
 =============================================================================
